@@ -62,6 +62,35 @@ def soft_module_matches_definition(S, area, center, ar, nrect):
     S.ensure("soft.no_nets", n.num_edges == 0 and seq(n.wire_length, 0))
 
 
+KEY_ORDERS = ["flag_false_first", "flag_false_last", "center_first", "rectangles_first", "terminal_false", "flip_false_hard_false"]
+
+
+@contract(P, functions=[N + "yaml_read_netlist.parse_yaml_module", N + "module.Module.__init__", N + "module.Module.area"],
+          params=[dict(order=o, flag=f) for o in KEY_ORDERS for f in ("fixed", "hard")], budget_s=300)
+def soft_module_with_explicit_false_flags_and_any_key_order(S, order, flag):
+    """the attributes of a module may come in any order in the document and boolean attributes may be written explicitly as
+    false: the loaded module is the same soft module with the same derived quantities"""
+    base = soft_module(S, "m", "two_regions", True, "pair", 1, regions=("LUT",))
+    items = list(base.items())
+    if order == "flag_false_first":
+        items = [(flag, False)] + items
+    elif order == "flag_false_last":
+        items = items + [(flag, False)]
+    elif order == "center_first":
+        items = [("center", base["center"]), (flag, False)] + [(k, v) for k, v in items if k != "center"]
+    elif order == "rectangles_first":
+        items = [("rectangles", base["rectangles"])] + [(k, v) for k, v in items if k != "rectangles"] + [(flag, False)]
+    elif order == "terminal_false":
+        items = [("area", base["area"]), ("terminal", False)] + [(k, v) for k, v in items if k != "area"] if False else [(flag, False), ("center", base["center"]), ("area", base["area"])] + [(k, v) for k, v in items if k not in ("area", "center")]
+    else:
+        items = [("flip", False), (flag, False)] + items
+    info = dict(items)
+    out, E, EA = _load(S, {"Modules": {"M": info}})
+    S.ensure("flags.loads", out.ok)
+    if out.ok:
+        _check_module(S, "flags", out.value.modules[0], base)
+
+
 @contract(P, functions=[N + "netlist.Netlist.__init__", N + "module.Module.setup", N + "netlist.Netlist.fixed_rectangles"],
           params=[dict(nrect=k, fixed=f, flip=fl) for k in (1, 2) for f in (False, True) for fl in (False, True) if not (f and fl)],
           budget_s=600)
